@@ -25,7 +25,7 @@ CACHE_DIR = "/SIMFS/cache"
 CACHE_NAME = "simcache"
 
 RES_FAULTS = ("NOTFOUND", "ERR_BEFORE", "ERR_MID", "ERR_AFTER", "RET_FALSE_BEFORE", "RET_FALSE_MID", "INTERRUPT_MID",
-              "ERR_STOPITER")
+              "ERR_STOPITER", "NOTFOUND_MID")
 NET_FAULTS = ("HTTP_404", "HTTP_5XX", "CONN_ERR", "TIMEOUT")
 FS_FAULTS = ("EIO", "ENOSPC", "SHORT_WRITE", "EMFILE", "SRC_MISSING", "RENAME_EIO", "DISK_FULL")
 PP_FAULTS = ("PP_ERR_BEFORE", "PP_ERR_MID", "PP_ERR_AFTER", "PP_INTERRUPT_MID")
@@ -481,12 +481,16 @@ class World:
         failed_quietly = False
         with open(filepath, "wb") as f:
             for i, piece in enumerate(pieces):
-                if kind in ("ERR_MID", "RET_FALSE_MID", "INTERRUPT_MID") and i == min(fault.get("k", 1), len(pieces) - 1):
+                if kind in ("ERR_MID", "RET_FALSE_MID", "INTERRUPT_MID", "NOTFOUND_MID") and i == min(fault.get("k", 1), len(pieces) - 1):
                     if len(pieces) == 1:
                         f.write(piece[:len(piece) // 2])
                     if kind == "RET_FALSE_MID":
                         failed_quietly = True
                         break
+                    if kind == "NOTFOUND_MID":
+                        # the usual streaming pattern: the target is opened (and maybe partly written) before the
+                        # remote side answers "no such object"
+                        raise NotFound("sim resource lost object %s part-way" % uri)
                     if kind == "INTERRUPT_MID":
                         # the user hits Ctrl-C part-way through a (sequential) download
                         raise KeyboardInterrupt()
